@@ -440,6 +440,17 @@ def r18_8(ctx):
         C = Obj("C", degree=3, ctrlpoints=("P",))
         seen = {}
 
+        class Inner(StandIn):
+            """the Bezier curve a planar curve wraps: its own derivate(k) is decided by this rule on BezierCurve"""
+            degree, ctrlpoints = 3, ("P",)
+
+            def derivate(self, *a, **k):
+                seen["delegated"] = (a, tuple(sorted(k.items())))
+                t = a[0] if a else k.get("times", 1)
+                return Obj("D", ctrlpoints=("DPTS", t), degree=3 - t)
+        if q.startswith("curve.PlanarCurve"):
+            C.__dict__["__planar"] = C.__dict__["_PlanarCurve__planar"] = Inner()
+
         def hook2(rn, ev, call, name, recv, args, kwargs):
             if name == "isinstance":
                 return True
@@ -456,8 +467,12 @@ def r18_8(ctx):
         try:
             got = Runner(ctx, set(), hook2, asserts=True).call_fn(fd, [C, 2])
             ok = got == "CURVE" and seen.get("m") == (3, 2) and seen.get("dot") == ("MATRIX", ("P",)) and seen.get("ctor") == ("NEWPTS",)
-            (out.ok if ok else out.bad)(q, "derivate(k) = class(D(degree, k) . ctrlpoints)" if ok else
-                                        f"derivative not built as matrix(degree, times) . ctrlpoints: {seen}", where=fd.where())
+            # or: handed on to the wrapped Bezier curve, with the number of times
+            ok2 = got == "CURVE" and "m" not in seen and seen.get("ctor") == (("DPTS", 2),)
+            (out.ok if ok or ok2 else out.bad)(q, "derivate(k) = class(D(degree, k) . ctrlpoints)" if ok else
+                                               "derivate(k) handed on to the wrapped curve with k" if ok2 else
+                                               f"derivate(2) is not the second derivative: neither matrix(degree, 2) . ctrlpoints "
+                                               f"nor the wrapped curve's derivate(2): {seen}", where=fd.where())
         except (Undecided, Raised) as ex:
             out.undecided(q, str(ex), where=fd.where())
     return out
@@ -632,6 +647,45 @@ def r18_10(ctx):
             out.bad(fn.qname, "a piece of the split is not the curve restricted to its parameter interval", where=fn.where(),
                     detail=f"cubic {tuple(map(str, P))} split at {tuple(map(str, nodes))}: piece {k} is "
                            f"{tuple(map(str, pieces[k])) if k < len(pieces) else 'missing'}, required {tuple(map(str, want[k])) if k < len(want) else 'none'}")
+    # one level up: PlanarCurve.split hands the nodes to its Bezier curve (here an exact stand-in that splits by the same
+    # reference) -- all at once or one after the other, the pieces are the restrictions to the intervals of the
+    # *original* parameters
+    fp = ctx.fn("curve.PlanarCurve.split")
+
+    class BezRef(StandIn):
+        def __init__(self, pts):
+            self.ctrlpoints = tuple(pts)
+            self.degree, self.npts = len(self.ctrlpoints) - 1, len(self.ctrlpoints)
+
+        def split(self, nodes):
+            return tuple(BezRef(p) for p in reference(self.ctrlpoints, list(nodes)))
+
+    def hook2(rn, ev, call, name, recv, args, kwargs):
+        if name == "isinstance":
+            return True
+        if name in ("PlanarCurve", "__class__") or (isinstance(call.func, ast.Attribute) and call.func.attr == "__class__"):
+            return ("PC", tuple(args[0]))
+        return NotImplemented
+    for nodes in ((Fr(1, 2),), (Fr(1, 4), Fr(3, 4)), (Fr(3, 4), Fr(1, 4)), (Fr(1, 3), Fr(1, 2), Fr(5, 6))):
+        inner = BezRef(P)
+        C = Obj("C", degree=3, npts=4, ctrlpoints=tuple(P))
+        C.__dict__["__planar"] = inner
+        C.__dict__["_PlanarCurve__planar"] = inner
+        try:
+            got = Runner(ctx, set(), hook2).call_fn(fp, [C, nodes])
+        except (Undecided, Raised, TypeError, ValueError) as ex:
+            out.undecided(fp.qname, f"nodes {tuple(map(str, nodes))}: {ex}", where=fp.where())
+            continue
+        pieces = [tuple(g[1]) if isinstance(g, tuple) and g and g[0] == "PC" else tuple(getattr(g, "ctrlpoints", ())) for g in got]
+        want = reference(P, nodes)
+        if pieces == want:
+            out.ok(fp.qname, f"nodes {tuple(map(str, nodes))}: {len(want)} pieces, each the restriction to its interval", where=fp.where())
+        else:
+            k = next((i for i, (a, b) in enumerate(zip(pieces, want)) if a != b), min(len(pieces), len(want)))
+            out.bad(fp.qname, "a piece of the split is not the curve restricted to its parameter interval", where=fp.where(),
+                    detail=f"cubic {tuple(map(str, P))} split at {tuple(map(str, nodes))}: piece {k} is "
+                           f"{tuple(map(str, pieces[k])) if k < len(pieces) else 'missing'}, required {tuple(map(str, want[k])) if k < len(want) else 'none'} "
+                           f"(nodes handed on one after the other must be rescaled to the remaining piece)")
     return out
 
 
